@@ -105,6 +105,11 @@ func runBehaviour(p eng.Profile, b behaviour, extraRestarts int, res *engOutput)
 		steps = append(steps, step{Op: map[string]any{"op": "Reopen", "res": "ok", "extra": true}})
 	}
 	offModel := false // after the first disagreement with the model only self-consistency is checked
+	// C12 on the real observation (no model oracle): once a node was deleted and its cascade settled, no active
+	// edge created before the delete may touch it -- checked after the delete and after every later restart,
+	// until the behaviour mentions the node again (re-add, explicit link, evolve)
+	dead := map[string]float64{} // node -> number of stored timestamps at the time of the delete (rank bound)
+	deadReported := false
 	for i, st := range steps {
 		if x, _ := st.Op["extra"].(bool); x && r.Dirty {
 			break // an uncommitted import is not expected to survive a restart
@@ -147,6 +152,92 @@ func runBehaviour(p eng.Profile, b behaviour, extraRestarts int, res *engOutput)
 				offModel = true
 			}
 		}
+		switch opName {
+		case "VDelete", "VDeleteCut":
+			if got == "ok" {
+				if id, _ := st.Op["id"].(string); id != "" {
+					dead[id] = 1
+				}
+			}
+		case "VAdd":
+			if id, _ := st.Op["id"].(string); got == "ok" {
+				delete(dead, id)
+			}
+		case "VAddBatch", "VImport":
+			if got == "ok" {
+				for _, k := range []string{"id1", "id2"} {
+					if id, _ := st.Op[k].(string); id != "" {
+						delete(dead, id)
+					}
+				}
+			}
+		case "VLink", "VUnlink":
+			for _, k := range []string{"s", "t"} {
+				if id, _ := st.Op[k].(string); id != "" {
+					delete(dead, id)
+				}
+			}
+		case "VEvolve":
+			for _, k := range []string{"old", "new"} {
+				if id, _ := st.Op[k].(string); id != "" {
+					delete(dead, id)
+				}
+			}
+		case "VDeleteIndex", "VCreate":
+			dead = map[string]float64{}
+		}
+		if len(dead) > 0 && !deadReported {
+			res.Checks++
+			if d := edgesToDead(cur, dead); len(d) > 0 {
+				deadReported = true
+				res.Divergences = append(res.Divergences, divergence{ID: b.ID, Step: i, Kind: "edge_to_deleted_node", Op: st.Op, Diff: d})
+			}
+		}
 		prev = cur
 	}
+}
+
+// edgesToDead lists the active stored versions and the answers of the current-time query interfaces that
+// still mention a deleted node.
+func edgesToDead(obs map[string]any, dead map[string]float64) []string {
+	g, _ := obs["g"].(map[string]any)
+	if g == nil {
+		return nil
+	}
+	var out []string
+	if vs, ok := g["versions"].([]any); ok {
+		for _, v := range vs {
+			m, _ := v.(map[string]any)
+			if m == nil {
+				continue
+			}
+			d, _ := m["d"].(float64)
+			s, _ := m["s"].(string)
+			t, _ := m["t"].(string)
+			_, sd := dead[s]
+			_, td := dead[t]
+			if d == 0 && (sd || td) {
+				out = append(out, fmt.Sprintf("obs.g.versions: active edge %s -%v-> %s touches a deleted node", s, m["r"], t))
+			}
+		}
+	}
+	for _, view := range []string{"outq", "inq"} {
+		if qs, ok := g[view].([]any); ok {
+			for _, q := range qs {
+				m, _ := q.(map[string]any)
+				if m == nil {
+					continue
+				}
+				T, _ := m["T"].(float64)
+				s, _ := m["s"].(string)
+				t, _ := m["t"].(string)
+				_, sd := dead[s]
+				_, td := dead[t]
+				if T == 0 && (sd || td) {
+					out = append(out, fmt.Sprintf("obs.g.%s: current query returns %s -%v-> %s, a deleted node", view, s, m["r"], t))
+				}
+			}
+		}
+	}
+	return out
 }
